@@ -2,6 +2,8 @@
 // crate::fdl::parameters::verif.
 
 use super::*;
+#[allow(unused_imports)]
+use crate::verif_support::*;
 
 fn any_baud() -> crate::Baudrate {
     match kani::any::<u8>() {
@@ -42,11 +44,11 @@ fn bits_to_time_exact(baud: crate::Baudrate) {
     // time-out, TTR up to 2^24
     kani::assume(bits <= (1 << 25));
     let rate = ref_rate(baud);
-    assert!(baud.to_rate() == rate, "C01/rate: the baud rate's numeric value");
+    vassert!(baud.to_rate() == rate, "C01/rate: the baud rate's numeric value");
     let t = baud.bits_to_time(bits).total_micros();
     // floor(bits * 10^6 / rate) without dividing: t*rate <= bits*10^6 < (t+1)*rate
     let exact = u64::from(bits) * 1_000_000;
-    assert!(t * rate <= exact && exact < (t + 1) * rate, "C01/conversion: a bit count converts to the exact time rounded down, i.e. less than 1 us short");
+    vassert!(t * rate <= exact && exact < (t + 1) * rate, "C01/conversion: a bit count converts to the exact time rounded down, i.e. less than 1 us short");
     kani::cover!(t * rate < exact, "cover: conversion rounds down");
 }
 
@@ -55,13 +57,13 @@ fn bits_to_time_exact(baud: crate::Baudrate) {
 #[kani::proof]
 fn c01_rate_table() {
     let b = any_baud();
-    assert!(b.to_rate() == ref_rate(b), "C01/rate: the baud rate's numeric value");
+    vassert!(b.to_rate() == ref_rate(b), "C01/rate: the baud rate's numeric value");
     // the conversion is the same expression for every rate: spot-check it on small counts
     let bits: u32 = kani::any();
     kani::assume(bits <= 64);
     let t = b.bits_to_time(bits).total_micros();
     let exact = u64::from(bits) * 1_000_000;
-    assert!(t * ref_rate(b) <= exact && exact < (t + 1) * ref_rate(b), "C01/conversion: a bit count converts to the exact time rounded down, i.e. less than 1 us short");
+    vassert!(t * ref_rate(b) <= exact && exact < (t + 1) * ref_rate(b), "C01/conversion: a bit count converts to the exact time rounded down, i.e. less than 1 us short");
     kani::cover!(matches!(b, crate::Baudrate::B45450) && bits == 33, "cover: 33 bit times at 45.45 kbit/s");
 }
 
@@ -100,9 +102,9 @@ fn tto_stagger(baud: crate::Baudrate) {
     let ta = pa.token_lost_timeout().total_micros();
     let tb = pb.token_lost_timeout().total_micros();
     let slot = pa.slot_time().total_micros();
-    assert!(ta >= 6 * slot, "C01/tto: the token-lost time-out is at least six slot times");
-    assert!(tb >= ta + 2 * slot, "C01/tto-stagger: the time-outs of stations with adjacent addresses differ by at least two slot times (hence 2*(b-a) for any pair)");
-    assert!(tb <= ta + 2 * slot + 2, "C01/tto-stagger: ... and by no more than two slot times (up to rounding)");
+    vassert!(ta >= 6 * slot, "C01/tto: the token-lost time-out is at least six slot times");
+    vassert!(tb >= ta + 2 * slot, "C01/tto-stagger: the time-outs of stations with adjacent addresses differ by at least two slot times (hence 2*(b-a) for any pair)");
+    vassert!(tb <= ta + 2 * slot + 2, "C01/tto-stagger: ... and by no more than two slot times (up to rounding)");
     kani::cover!(a == 0, "cover: lowest address");
 }
 
@@ -129,13 +131,13 @@ fn c03_watchdog_factors() {
     let p = ParametersBuilder::new(1, crate::Baudrate::B19200).watchdog_timeout(dur).build();
     match p.watchdog_factors {
         Some((f1, f2)) => {
-            assert!(f1 >= 1 && f2 >= 1, "C03/watchdog: both watchdog factors are in 1..=255");
+            vassert!(f1 >= 1 && f2 >= 1, "C03/watchdog: both watchdog factors are in 1..=255");
             let want_10ms = micros / 10_000;
-            assert!(u64::from(f1) * u64::from(f2) >= want_10ms, "C03/watchdog: the configured watchdog time (f1*f2*10 ms) is not shorter than the requested one");
-            assert!(p.watchdog_timeout() == Some(crate::time::Duration::from_millis(u64::from(f1) * u64::from(f2) * 10)), "C03/watchdog: the reported watchdog time is f1*f2*10 ms");
+            vassert!(u64::from(f1) * u64::from(f2) >= want_10ms, "C03/watchdog: the configured watchdog time (f1*f2*10 ms) is not shorter than the requested one");
+            vassert!(p.watchdog_timeout() == Some(crate::time::Duration::from_millis(u64::from(f1) * u64::from(f2) * 10)), "C03/watchdog: the reported watchdog time is f1*f2*10 ms");
             kani::cover!(f1 > 1, "cover: timeout needing two factors");
             kani::cover!(micros == 650_000_000, "cover: longest timeout");
         }
-        None => assert!(false, "C03/watchdog: a watchdog timeout between 10 ms and 650 s yields factors"),
+        None => vassert!(false, "C03/watchdog: a watchdog timeout between 10 ms and 650 s yields factors"),
     }
 }
